@@ -52,6 +52,18 @@ fn gen_project(rng: &mut Rng, fenced: &BTreeSet<String>, builtins: &BTreeSet<Str
         let d = **rng.pick(&other_dirs);
         paths[j] = if d.is_empty() { base } else { format!("{d}/{base}") };
     }
+    // sometimes two sibling directories one of whose names is a string prefix of the other
+    // (`util/` next to `utils/`, `v1/` next to `v10/`)
+    if n >= 2 && rng.chance(1, 5) {
+        let i = rng.below(n as u64) as usize;
+        let j = (i + 1 + rng.below(n as u64 - 1) as usize) % n;
+        let stem = *rng.pick(&["util", "model", "v1", "pkg", "Ünï"]);
+        let longer = format!("{stem}{}", rng.pick(&["s", "0", "_x", " 2"]));
+        let base = |p: &str| std::path::Path::new(p).file_name().unwrap().to_string_lossy().into_owned();
+        let parent = if rng.chance(1, 3) { "nest/" } else { "" };
+        paths[i] = format!("{parent}{stem}/{}", base(&paths[i]));
+        paths[j] = format!("{parent}{longer}/{}", base(&paths[j]));
+    }
     let mut files = vec![];
     let mut xfaults: Vec<Option<String>> = vec![];
     {
